@@ -427,7 +427,8 @@ func (r *runner) handleInterrupt(
 		Inputs:         make(map[string]any),
 		SkipPreHandler: map[string]bool{},
 	}
-	if state, ok := ctx.Value(stateKey{}).(*internalState); ok {
+	// a graph without a state of its own sees its parent's state in ctx: that state belongs to the parent's checkpoint
+	if state, ok := ctx.Value(stateKey{}).(*internalState); ok && r.runCtx != nil {
 		cp.State = state.state
 	}
 	intInfo := &InterruptInfo{
@@ -507,7 +508,8 @@ func (r *runner) handleInterruptWithSubGraphAndRerunNodes(
 		SkipPreHandler: skipPreHandler,
 		SubGraphs:      make(map[string]*checkpoint),
 	}
-	if state, ok := ctx.Value(stateKey{}).(*internalState); ok {
+	// a graph without a state of its own sees its parent's state in ctx: that state belongs to the parent's checkpoint
+	if state, ok := ctx.Value(stateKey{}).(*internalState); ok && r.runCtx != nil {
 		cp.State = state.state
 	}
 	intInfo := &InterruptInfo{
